@@ -15,7 +15,9 @@ RULE = ('every exception class of pyramid.httpexceptions x detail/comment/explan
         '(HTML metacharacters, Template syntax such as ${detail} $$ ${br}, non-ASCII, astral, control characters, lone '
         'surrogates) x Accept headers (specific, wildcards, q-values, absent, empty, malformed; negotiated by WebOb) x '
         'default / class / custom body templates, called as a WSGI application, plus Router.__call__ on unknown '
-        'paths, plus code-point sweeps through html_escape and json.dumps; non-trivial = a body was rendered and at '
+        'paths, plus the other raisers reached through a real Router (static view: not found / out of bounds / add-slash '
+        'redirect with request URL and query string; PredicateMismatch of multiviews and predicated views; HTTPForbidden '
+        'of secured views), plus code-point sweeps through html_escape and json.dumps; non-trivial = a body was rendered and at '
         'least one supplied text contains a character that an escape function or the Template scanner treats '
         'specially; distinct by full case')
 ASSUMPTIONS = [
@@ -24,6 +26,7 @@ ASSUMPTIONS = [
     'response header names passed as headers= are ASCII (str.lower() is modelled on ASCII); Content-Type and Content-Length can never be named by a Template identifier and are left out of the args map',
     'the exception is rendered once (a second call finds has_body set and re-sends the first body)',
     'request.path_info decoding (WebOb) is an oracle input for the Router path; only decodable paths are generated',
+    'request.url / path_url / query_string (WebOb) are oracle inputs for the static-view cases; QUERY_STRING is ASCII (a non-UTF-8 query makes request.params of the predicate fail with UnicodeDecodeError before any exception is rendered)',
     'REQUEST_METHOD != HEAD (WebOb then sends an empty body); Location without CR/LF (WebOb rejects it)',
 ]
 TRUSTED = [
